@@ -47,7 +47,6 @@ BIN = "replay_compat"
 
 R_ACTIONS = {"Read", "FillBuf", "Consume", "FillReadBuf", "PollRd", "RComplete"}
 W_ACTIONS = {"Write", "Flush", "FlushWriteBuf", "PollWrite", "PollFlush", "PollClose", "WComplete"}
-SYNC_ONLY = {"Read", "FillBuf", "FillReadBuf", "Write", "Flush", "FlushWriteBuf"}
 NEED_STEPS = {
     "r": {"read", "fill_buf", "consume", "fill_read_buf", "pread", "puninit", "pfill", "complete"},
     "w": {"write", "flush", "flush_write_buf", "pwrite", "pflush", "pclose", "complete"},
@@ -188,6 +187,7 @@ def _t(run, what):
 
 def run(run, tier, replay):
     tmp = vlib.scratch()
+    pools = []
     try:
         if replay:
             vlib.sany("CompatStream")
@@ -208,6 +208,7 @@ def run(run, tier, replay):
         pool = concurrent.futures.ThreadPoolExecutor(max_workers=3)
         # cargo may have to wait for the lock on the shared target directory: start it right away, on its own thread
         bpool = concurrent.futures.ThreadPoolExecutor(max_workers=1)
+        pools += [pool, bpool]
         build = bpool.submit(vlib.cargo_build, PKG, [BIN])
         # ---- 1. model checking and 2. generation, in parallel (3 JVMs with 2 workers each)
         # quick: one exhaustive run per half = invariants + liveness on the fair spec;
@@ -228,10 +229,10 @@ def run(run, tier, replay):
                      Gen(tmp, "seq_w", "Gen_CompatStream_seq_w.cfg"),
                      Gen(tmp, "seqa_r", "Gen_CompatStream_seqa_r.cfg"),
                      Gen(tmp, "seqa_w", "Gen_CompatStream_seqa_w.cfg"),
-                     Gen(tmp, "sim_r", "Gen_CompatStream_sim_r.cfg", simulate=40000, depth=9),
-                     Gen(tmp, "sim_w", "Gen_CompatStream_sim_w.cfg", simulate=40000, depth=9),
-                     Gen(tmp, "sim2_r", "Gen_CompatStream_sim_r.cfg", simulate=40000, depth=9, seed_=vlib.seed() + 7919),
-                     Gen(tmp, "sim2_w", "Gen_CompatStream_sim_w.cfg", simulate=40000, depth=9, seed_=vlib.seed() + 7919)]
+                     Gen(tmp, "sim_r", "Gen_CompatStream_sim_r.cfg", simulate=10000, depth=9),
+                     Gen(tmp, "sim_w", "Gen_CompatStream_sim_w.cfg", simulate=10000, depth=9),
+                     Gen(tmp, "sim2_r", "Gen_CompatStream_sim_r.cfg", simulate=10000, depth=9, seed_=vlib.seed() + 7919),
+                     Gen(tmp, "sim2_w", "Gen_CompatStream_sim_w.cfg", simulate=10000, depth=9, seed_=vlib.seed() + 7919)]
         gfut = [pool.submit(g.go) for g in gens[:2]]
         mc = {name: pool.submit(_mc, cfg) for name, cfg in jobs}
         gfut += [pool.submit(g.go) for g in gens[2:]]
@@ -307,17 +308,20 @@ def run(run, tier, replay):
         # ---- 4. negative control: flip one expectation per behaviour and demand that the replay notices
         for g in gens[:2]:
             bad = os.path.join(tmp, g.name + "_neg.jsonl")
+            stride = max(1, g.n // 60)
+            picked = 0
             with open(g.path) as f, open(bad, "w") as g2:
                 for i, line in enumerate(f):
-                    if i >= 60:
-                        break
+                    if i % stride or picked >= 60:
+                        continue
                     o = json.loads(line)
                     o["steps"][-1]["x"]["n"] += 1
                     g2.write(json.dumps(o) + "\n")
+                    picked += 1
             sneg, _ = replay_file(bad)
             nm = sum(p["count"] for p in sneg["problems"] if p["type"] == "mismatch")
-            if nm < min(60, g.n):
-                raise vlib.ToolError("negative control: corrupted expectations were accepted (%d/60 noticed)" % nm)
+            if nm < picked:
+                raise vlib.ToolError("negative control: corrupted expectations were accepted (%d/%d noticed)" % (nm, picked))
             # and one for the contract oracle: the scripted stream misreports one byte (the adapter is fine, the
             # observation is not); the oracle alone must object
             sneg, _ = vlib_run_sabotaged(bad)
@@ -327,14 +331,14 @@ def run(run, tier, replay):
                 raise vlib.ToolError("negative control: the contract oracle accepted a falsified observation")
         _t(run, "negative controls done")
         run.note("drift_steps", total_drift)
-        run.note("exhaustive", q)
+        run.note("exhaustive", True)     # the cover runs enumerate the whole bounded model in both tiers
         run.assumptions += [
             "adapter behaviour is independent of the concrete byte values (bytes are numbered 1,2,3,...)",
             "the caller consumes only what fill_buf showed and does not write or flush after a successful close",
             "a different entry point = a different task (one waker per entry point); two tasks in the same entry point "
             "share one slot by design of futures-io",
         ]
-        pool.shutdown()
-        bpool.shutdown()
     finally:
+        for p_ in pools:
+            p_.shutdown(wait=True, cancel_futures=True)     # never leave a TLC run behind, also on errors
         shutil.rmtree(tmp, ignore_errors=True)
